@@ -17,6 +17,7 @@ import hashlib
 import inspect
 import random
 from fractions import Fraction
+from pathlib import Path
 
 import numpy as np
 from ufl.classes import (
@@ -36,6 +37,30 @@ from . import corpus, lnodes_eval, pipeline
 from .sexp import rat
 
 TIE_REL = 1e-9  # knife-edge margin (DESIGN §8)
+
+# ---- what to pass to chk.lean(IR_MODULE, TABLE_THEOREMS + FACTORIZE_THEOREMS, extra_files=IR_FILES)
+_LEAN = Path(__file__).resolve().parent.parent / "lean"
+IR_MODULE = "FfcxProofs.Lemmas.TablesFactorize"
+IR_FILES = [str(_LEAN / f) for f in (
+    "FfcxModel/IR/Tables.lean", "FfcxModel/IR/Graph.lean", "FfcxModel/IR/Factorize.lean",
+    "FfcxProofs/Lemmas/Tables.lean", "FfcxProofs/Lemmas/GraphEval.lean",
+    "FfcxProofs/Lemmas/FactorizeCtor.lean", "FfcxProofs/Lemmas/FactorizeDict.lean",
+    "FfcxProofs/Lemmas/FactorizeSum.lean", "FfcxProofs/Lemmas/FactorizeHandlers.lean",
+    "FfcxProofs/Lemmas/FactorizeInv.lean", "FfcxProofs/Lemmas/FactorizeStep.lean",
+    "FfcxProofs/Lemmas/FactorizeRun.lean", "FfcxProofs/Lemmas/FactorizeNodes.lean",
+    "FfcxProofs/Lemmas/FactorizeTargets.lean",
+)]
+TABLE_THEOREMS = [
+    "Ffcx.IR.clamp_bound", "Ffcx.IR.clamp_idem", "Ffcx.IR.zeros_replacement", "Ffcx.IR.ones_replacement",
+    "Ffcx.IR.access_compress", "Ffcx.IR.access_compress_tol", "Ffcx.IR.access_compress_tol3",
+    "Ffcx.IR.access_compress_needs_all_perms",
+]
+FACTORIZE_THEOREMS = [
+    "Ffcx.IR.factorize_sound", "Ffcx.IR.accepted_closed", "Ffcx.IR.accepted_sum_operands",
+    "Ffcx.IR.factorize_rejects", "Ffcx.IR.factorize_rejects_nonlinear", "Ffcx.IR.factorize_rejects_divisor",
+    "Ffcx.IR.factorize_rejects_sum_argfree", "Ffcx.IR.factorize_target_dropped_counterexample",
+    "Ffcx.IR.factorize_product_collision_counterexample", "Ffcx.IR.ratEnv_lawful", "Ffcx.IR.ratEnv_real",
+]
 
 
 # ===================================================================================== tables
@@ -463,6 +488,8 @@ def classify_exception(ex):
         return ("nonlinear", cls)
     if isinstance(ex, RuntimeError) and "equal argument rank" in msg:
         return ("sumRank",)
+    if isinstance(ex, RuntimeError) and "all summands to depend on the arguments" in msg:
+        return ("sumArgFree",)
     if isinstance(ex, AssertionError) and "Cannot divide by arguments" in msg:
         return ("divByArg",)
     if isinstance(ex, AssertionError) and "argument in condition" in msg:
@@ -529,8 +556,11 @@ def _env_sexp(args, terms):
     return f"(args {a}) (terms {t})"
 
 
-def check_one_factorization(chk, driver, name, rec, stats):
-    """One real call of compute_argument_factorization against the model."""
+def check_one_factorization(chk, driver, name, rec, stats, pipeline_error=None):
+    """One real call of compute_argument_factorization against the model.
+
+    `pipeline_error`: the exception with which the rest of the FFCx pipeline rejected the input after
+    this call (then a wrong factorisation is not a wrong kernel, only noted)."""
     S, rank, F, exc = rec["S"], rec["rank"], rec["F"], rec["exc"]
     ex = GraphExport(S)
     targets = [(i, list(v["component"])) for i, v in S.nodes.items() if v.get("target", False)]
@@ -561,8 +591,9 @@ def check_one_factorization(chk, driver, name, rec, stats):
         stats["rejected"] = stats.get("rejected", 0) + 1
         if model != real:
             chk.disagree("factorization: error raised", {**where, "model": model, "impl": real, "graph": gS})
-        elif isinstance(exc, KeyError):
-            # mirrored by the model, but a crash of the real code on an input nothing rejects on purpose
+        if isinstance(exc, KeyError):
+            # a crash of the real code on an input nothing rejects on purpose (fixed by e5efe38: the zero
+            # operand of conditional(c, f, 0) is inserted into F; armed in case it returns)
             chk.violation(key="factorization:crash:keyerror-zero-in-conditional",
                           what="compute_argument_factorization raises KeyError(Zero): handle_conditional builds "
                                "conditional(c, f, as_ufl(0.0)) but Zero is not a node of F",
@@ -653,6 +684,10 @@ def check_one_factorization(chk, driver, name, rec, stats):
                                       "args": [str(a) for a in args], "terms": [str(x) for x in terms]}
     if approx_only:
         stats["identity_up_to_literal_rounding"] = stats.get("identity_up_to_literal_rounding", 0) + 1
+    if bad is not None and pipeline_error is not None:
+        stats.setdefault("identity_fails_but_rejected_later", []).append(
+            {**where, "later_error": f"{type(pipeline_error).__name__}: {str(pipeline_error)[:80]}"})
+        return
     if bad is not None:
         cause = "wf-holds"
         if model_rejects:
@@ -713,7 +748,8 @@ def check_factorization(chk, driver, entries):
             # failed elsewhere (UFL arity check, unsupported element …): not this function's business
             stats.setdefault("skipped", []).append(f"{entry.name}: {type(err).__name__}")
         for k, rec in enumerate(cap):
-            check_one_factorization(chk, driver, f"{entry.name}:{k}", rec, stats)
+            later = err if (err is not None and rec["exc"] is None) else None
+            check_one_factorization(chk, driver, f"{entry.name}:{k}", rec, stats, pipeline_error=later)
     return stats
 
 
@@ -722,6 +758,7 @@ def probe_entries():
     """Expressions (they by-pass UFL's arity checker) and forms that exercise the accept/reject
     boundary of compute_argument_factorization."""
     import basix.ufl
+    import ufl
     from ufl import (Coefficient, FunctionSpace, Mesh, TestFunction, TrialFunction, conditional, dx, lt, sqrt)
     E = corpus.Entry
     P = np.array([[0.25, 0.25]])
@@ -753,6 +790,9 @@ def probe_entries():
         E("probe_cond_u0_u1", mk(lambda u, v, f, g, uu, vv: [conditional(lt(f, 0.5), uu[0], uu[1]) * vv[0] * dx])),
         E("probe_u_over_f", mk(lambda u, v, f, g, uu, vv: [(u / (f + 2), P)]), kind=ex),
         E("probe_u_times_u", mk(lambda u, v, f, g, uu, vv: [(u * u, P)]), kind=ex),
+        E("probe_vector_u_f", mk(lambda u, v, f, g, uu, vv: [(ufl.as_vector((u, f)), P)]), kind=ex),
+        E("probe_collision", mk(lambda u, v, f, g, uu, vv: [((uu[0] + uu[1]) * (uu[0] + uu[1]), P)]), kind=ex),
+        E("probe_cond_f_u0_u1_expr", mk(lambda u, v, f, g, uu, vv: [(conditional(lt(f, 0.5), uu[0], uu[1]), P)]), kind=ex),
     ]
 
 
